@@ -28,6 +28,8 @@ LAYOUTS = {
     'investment': [('M1', 'Cat', 'Sub', 1, ['investment']), ('M2', 'Cat', 'Sub', 2, ['large']), ('M2', 'Cat', 'Sub', 2, [])],
     'single': [('M1', 'Cat', 'Sub', 5, [])],
     'four': [('A', 'C1', 'S1', 1, []), ('B', 'C1', 'S2', 1, ['income']), ('A', 'C1', 'S1', 2, ['refund']), ('C', 'C2', 'S1', 2, ['transfer'])],
+    # transactions that carry two of the special tags at once (a 401k transfer tagged by two rules)
+    'double-tagged': [('M1', 'Cat', 'Sub', 1, ['investment', 'transfer']), ('M2', 'Cat', 'Sub', 2, ['Transfer', 'INCOME']), ('M3', 'Shop', 'X', 2, ['transfer', 'Investment'])],
 }
 
 
@@ -268,6 +270,53 @@ HOSTILE = ['</script>', '</SCRIPT >', '</Script>x', 'a</sCrIpT\n>', '<!-- <SCRIP
            'back\\slash', "it's", 'café €', ' line', '<script>alert(1)</script>']
 
 
+def text_figures(k):
+    """The figures PRINTED by the text summary and written to Markdown carry the sign of the analysed figure (direct runs: the
+    formatted text of a symbolic number is opaque to the solver).  k picks the signs of net cash flow and net transfers."""
+    cf_pos, tr_pos = bool(k & 1), bool(k & 2)
+
+    class Q:
+        def query(self):
+            ok, why = self._run()
+            r = {'solver_queries': 0, 'solver_time_s': 0.0, 'paths': 1, 'extra': {'decided_by': 'direct run (formatted text)'}}
+            r.update({'status': 'CONFIRMED', 'message': why} if ok else {'status': 'REFUTED', 'args': {}, 'message': why})
+            return r
+
+        def _run(self):
+            import contextlib
+            import io
+            import re
+            import sys
+            sys.path.insert(0, REPO_SRC)
+            from datetime import datetime
+            from tally import analyzer
+            inc, spend = (1000.0, 300.0) if cf_pos else (100.0, 900.0)
+            tin, tout = (500.0, 120.0) if tr_pos else (50.0, 750.0)
+            rows = [('Job', inc, ['income']), ('Shop', spend, []), ('In', tin, ['transfer']), ('Out', -tout, ['transfer'])]
+            txns = [{'merchant': m, 'category': 'C', 'subcategory': 'S', 'date': datetime(2024, 1 + i, 5), 'amount': a, 'tags': t, 'description': m,
+                     'raw_description': m, 'source': 'S', 'location': None} for i, (m, a, t) in enumerate(rows)]
+            stats = analyzer.analyze_transactions(txns)
+            buf = io.StringIO()
+            with contextlib.redirect_stdout(buf):
+                analyzer.print_summary(stats, year=2024)
+            text = buf.getvalue()
+            md = analyzer.export_markdown(stats)
+            for label, val in (('Net Cash Flow', stats['cash_flow']), ('Net Transfers', stats['transfers_net'])):
+                for name, out in (('text', text), ('markdown', md)):
+                    lines = [ln for ln in out.splitlines() if label in ln]
+                    if len(lines) != 1:
+                        return False, '%s: %d lines mention %s' % (name, len(lines), label)
+                    digits = re.sub(r'[^0-9]', '', lines[0].split(label, 1)[1])
+                    neg = '-' in lines[0].split(label, 1)[1]
+                    if neg != (val < 0) or str(int(abs(val))) not in digits:
+                        return False, '%s prints %r for %s = %r' % (name, lines[0].strip(), label, val)
+            return True, 'printed figures carry the analysed sign and magnitude'
+
+        def __call__(self, **kw):
+            return self._run()[0]
+    return Q()
+
+
 def parse_back(i):
     """The written HTML, read back by html.parser and json, holds exactly the analysed descriptions (direct run per hostile string)."""
     text = HOSTILE[i]
@@ -338,7 +387,7 @@ def obligations(tier, seed):
     to = 150 if q else 900
     combos = [('mixed-tags', False, 'html'), ('mixed-tags', True, 'html'), ('two-categories', False, 'markdown'), ('two-categories', False, 'html'),
               ('investment', True, 'text'), ('investment', False, 'json'), ('single', False, 'markdown'), ('four', True, 'html'), ('single', False, 'json'),
-              ('mixed-tags', False, 'markdown'), ('four', False, 'text'), ('two-categories', True, 'json')]
+              ('mixed-tags', False, 'markdown'), ('four', False, 'text'), ('two-categories', True, 'json'), ('double-tagged', False, 'html'), ('double-tagged', True, 'json')]
     if not q:
         combos = [(l, v, w) for l in LAYOUTS for v in (False, True) for w in ('html', 'json', 'markdown', 'text')]
     for (l, v, w) in combos:
@@ -349,6 +398,9 @@ def obligations(tier, seed):
                           bounds='two distinct merchant names (1-2 chars and 1 char) over (a, blank, _, single quote, double quote)'))
     obs.append(Obligation(id='unique-merchant-ids-3', factory='unique_ids3', timeout=to, group='merchant ids are unique',
                           bounds='3-4 merchant names derived from a symbolic name (1-2 chars over a, blank, _, quotes): the name, the name without quotes, and "<base> 2" / "<base>_2" / "<base>_3" variants'))
+    for k in range(4):
+        obs.append(Obligation(id=f'text-figures-{k}', factory='text_figures', params={'k': k}, engine='smt', twin=False, timeout=60,
+                              group='same figures in every format (direct runs)', bounds=f'net cash flow {"positive" if k & 1 else "negative"}, net transfers {"positive" if k & 2 else "negative"}: text summary and Markdown'))
     for i, t in enumerate(HOSTILE):
         obs.append(Obligation(id=f'parse-back-{i:02d}', factory='parse_back', params={'i': i}, engine='smt', twin=False, timeout=60,
                               group='HTML parse-back on hostile strings (direct runs)', bounds=f'description / source name {t!r}'))
